@@ -1,6 +1,7 @@
 #!/bin/bash
 # run checks against a seeded change: tools/seedtest.sh <patch.diff> <property...>
 patch=$1; shift
+export VERIF_EVIDENCE_DIR=/var/tmp/verif-scratch/evidence-mut
 if [ -n "$(git -C /repo status --short)" ]; then echo "REFUSING: /repo has uncommitted changes"; exit 2; fi
 git -C /repo apply "$patch" || { echo "patch does not apply"; exit 2; }
 for p in "$@"; do
